@@ -199,11 +199,15 @@ Go(M, c0, sym, ph, evs, fuel, dn, cons, raised) ==
               cl2 == [i \in DOMAIN top.cl |-> [top.cl[i] EXCEPT !.S = D[i]]]
           IN IF e.k = "ovf" THEN Raise([c EXCEPT !.d = e.d], "oos", e.ev)
              ELSE IF e.k # "next" THEN {Out(e.ev, [c EXCEPT !.st = e.k], cons, raised)}
+             ELSE IF decided /\ Cardinality({i \in fin : top.cl[i].prio = top.cl[best].prio}) > 1
+                  THEN {Out(e.ev, [c EXCEPT !.st = "amb"], TRUE, raised)}        \* several clauses match and none is preferred
              ELSE Go(M, [c EXCEPT !.K = IF decided THEN Push(FS(top.cl[best].b), rest) ELSE Push([top EXCEPT !.cl = cl2], rest), !.d = e.d],
                      sym, "aft", e.ev, fuel - 1, -1, TRUE, raised)
        ELSE LET fin == {i \in DOMAIN top.cl : NullS(top.cl[i].S)}
                 best == CHOOSE i \in fin : \A j \in fin : top.cl[j].prio <= top.cl[i].prio IN
-            IF fin # {} THEN Go(M, [c EXCEPT !.K = Push(FS(top.cl[best].b), rest)], sym, "arr", evs, fuel - 1, dn, cons, raised)
+            IF fin # {} /\ Cardinality({i \in fin : top.cl[i].prio = top.cl[best].prio}) > 1
+            THEN {Out(evs, [c EXCEPT !.st = "amb"], cons, raised)}
+            ELSE IF fin # {} THEN Go(M, [c EXCEPT !.K = Push(FS(top.cl[best].b), rest)], sym, "arr", evs, fuel - 1, dn, cons, raised)
                              \cup (IF Trailing(Push(FS(top.cl[best].b), rest))
                                    THEN (IF top.hasels THEN Go(M, [c EXCEPT !.K = Push(FS(top.eb), rest)], sym, "arr", evs, fuel - 1, dn, cons, raised)
                                          ELSE Raise([c EXCEPT !.K = rest], "nomatch", evs))
